@@ -20,10 +20,10 @@ META = {
     "bounds": {"quick": "all ordered pairs n=2,3,4 (4 + 64 + 4096) both modes; n=5: every graph against every member of its own orbit and one representative of every other orbit (deterministic mode; random mode seed 0 on the same-orbit pairs); "
                         "local complementation on every (graph, vertex) n<=5; lc_check on all 3600 ordered pairs of 2-qubit stabilizer states",
                "thorough": "all 1 048 576 ordered pairs n=5; n=6: every graph against its orbit representative and two other representatives"},
-    "assumptions": ["per-call horizon 5 s (lc_graph_operations has unbounded while loops): exceeding it is reported as non-termination",
+    "assumptions": ["per-call horizon 20 s of CPU time (lc_graph_operations has unbounded while loops): exceeding it is reported as non-termination",
                     "random mode uses graphiq's own seeding (np.random.seed(seed)); seeds {0,1,2}"],
 }
-HORIZON = 5.0
+HORIZON = 20.0
 
 
 def adj(n, edges):
